@@ -95,6 +95,15 @@ def unaryTrace {σ : Type} (L : LimEnv ε) (site : Site) (t : Trans σ ε ρ) (s
   let d2 := t.need st c (max d1 pre)
   handed true ((t.run st c).take d1) ++ handed false (c.take d2) ++ childTrace d2
 
+/-- the same for an operator that can park failures: every failure parked while the pulled rows
+    were processed counts as an error handed to the node's guard -/
+def parkTrace {σ : Type} (L : LimEnv ε) (site : Site) (t : Trans σ ε ρ) (parks : σ → Except ε ρ → Option ε)
+    (flushParks : σ → Option ε) (drop : Bool) (st : σ) (c : Stream ε ρ)
+    (childTrace : Nat → List (Handed ε ρ)) (pre : Nat) (d : Nat) : List (Handed ε ρ) :=
+  unaryTrace L site (parkT t parks flushParks drop) (st, none) c childTrace pre d ++
+    (parkEvents t parks flushParks st c (guardNeed L site ((parkT t parks flushParks drop).run (st, none) c) d)).map
+      (fun e => ⟨true, .error e⟩)
+
 /-- `execute_order_by` / `execute_aggregate` drain their input when the iterator tree is BUILT
     (`execute_plan`), before anything is demanded of them: with `eager` the accounting includes that
     (the engine's row counter does); without it the accounting is purely demand-driven (what the
@@ -121,14 +130,14 @@ def trace (eager : Bool) (S : Sem χ ρ ν ε κ α) (Q : Quirks) (L : LimEnv ε
       ((batches g 0 c (guardNeed L site ((flatMapT g).run 0 c) d)).map (fun b =>
         trace eager S Q L (.exec b.1 site) (S.bind env b.2.1) sub 1)).flatten
   | site, env, .project projs inp, d =>
-    unaryTrace L site (projectT S L env projs) () (runL S Q L (.left site) env inp)
-      (trace eager S Q L (.left site) env inp) 0 d
+    parkTrace L site (projectT S L env projs) (rowParks S L env (projs.map (·.2))) noFlushParks
+      Q.guardDropsFailureAtEnd () (runL S Q L (.left site) env inp) (trace eager S Q L (.left site) env inp) 0 d
   | site, env, .distinct inp, d =>
     unaryTrace L site (distinctT S Q.distinctDropsErr) [] (runL S Q L (.left site) env inp)
       (trace eager S Q L (.left site) env inp) 0 d
   | site, env, .unwind e alias inp, d =>
-    unaryTrace L site (flatMapT (unwindRow S L site env e alias)) 0 (runL S Q L (.left site) env inp)
-      (trace eager S Q L (.left site) env inp) 0 d
+    parkTrace L site (flatMapT (unwindRow S L site env e alias)) (rowParks S L env [e]) noFlushParks
+      Q.guardDropsFailureAtEnd 0 (runL S Q L (.left site) env inp) (trace eager S Q L (.left site) env inp) 0 d
   | site, env, .expand f inp, d =>
     unaryTrace L site (flatMapT (fun _ r => f r)) 0 (runL S Q L (.left site) env inp)
       (trace eager S Q L (.left site) env inp) 0 d
@@ -143,10 +152,12 @@ def trace (eager : Bool) (S : Sem χ ρ ν ε κ α) (Q : Quirks) (L : LimEnv ε
      | .ok k => unaryTrace L site limitT k (runL S Q L (.left site) env inp)
          (trace eager S Q L (.left site) env inp) 0 d)
   | site, env, .orderBy keys inp, d =>
-    unaryTrace L site (orderByT S Q L site env keys) ⟨[], 0, false⟩ (runL S Q L (.left site) env inp)
+    parkTrace L site (orderByT S Q L site env keys) (fun _ _ => none) (orderByFlushParks S L env keys)
+      Q.guardDropsFailureAtEnd ⟨[], 0, false⟩ (runL S Q L (.left site) env inp)
       (trace eager S Q L (.left site) env inp) (eagerPre eager) d
   | site, env, .aggregate groupBy aggs inp, d =>
-    unaryTrace L site (aggregateT S L site env groupBy aggs) ⟨[], 0, false⟩ (runL S Q L (.left site) env inp)
+    parkTrace L site (aggregateT S L site env groupBy aggs) (fun _ _ => none) (aggregateFlushParks S L env aggs)
+      Q.guardDropsFailureAtEnd ⟨[], 0, false⟩ (runL S Q L (.left site) env inp)
       (trace eager S Q L (.left site) env inp) (eagerPre eager) d
   | site, env, .union all l r, d =>
     let cl := runL S Q L (.left site) env l
